@@ -208,12 +208,18 @@ func c18FieldValues(x *X, fd *ast.FuncDecl, field string) []string {
 func c18IfConds(x *X, fd *ast.FuncDecl) []string {
 	var out []string
 	for _, st := range fd.Body.List {
-		if is, ok := st.(*ast.IfStmt); ok {
+		// the conditions of an if / else-if chain, in order
+		for is, ok := st.(*ast.IfStmt); ok && is != nil; {
 			c := x.Src(is.Cond)
 			if is.Init != nil {
 				c = x.Src(is.Init) + "; " + c
 			}
 			out = append(out, strings.Join(strings.Fields(c), " "))
+			next, isIf := is.Else.(*ast.IfStmt)
+			if !isIf {
+				break
+			}
+			is = next
 		}
 	}
 	return out
